@@ -63,12 +63,20 @@ class StubSim(mosaik_api_v3.Simulator):
         self.ctx = CTX
         self.meta["type"] = spec["type"]
         self.meta["models"] = {"M": model_desc(spec["type"], spec.get("any_inputs", False))}
+        if spec.get("child"):
+            # a child entity of ANOTHER model with the same attribute names but swapped roles
+            # (hybrid only): in K, `mi` triggers and `ti`/`ti2` do not; `eo` persistent, `po` not
+            self.meta["models"]["K"] = dict(
+                attrs=["mi", "ti", "ti2", "po", "eo"], trigger=["mi"], **{"non-persistent": ["po"]},
+                public=False, params=[])
         if spec.get("set_events"):
             self.meta["set_events"] = True
         self.ctx.stubs[sid] = self
         return self.meta
 
     def create(self, num, model, **kw):
+        if self.spec.get("child"):
+            return [{"eid": "e", "type": model, "children": [{"eid": "k", "type": "K"}]}]
         return [{"eid": "e", "type": model}]
 
     def setup_done(self):
